@@ -240,7 +240,9 @@ inline std::string makeAsm(sim::Rng &r) {
     return std::string(r.chance(1, 2) ? "STAM " : "STAI ") + k + "\nBR start\nDATA " + std::to_string(150000 + r.below(49000)) + "\nstart\nLDAM " + k +
            "\nLDBM 1\nSTAI 2\nLDAC 0\nOPR SVC\n";
   }
-  std::string s = "BR start\nDATA " + std::to_string(150000 + r.below(49000)) + "\n";
+  // One program in twelve keeps its stack above hexsim's 200000 words, inside the 2^19 words of the
+  // Verilog memory: only hextb can run it (C13 judges it, C06 and the hexsim harnesses skip it).
+  std::string s = "BR start\nDATA " + std::to_string(r.chance(1, 12) ? 200000 + r.below(324000) : 150000 + r.below(49000)) + "\n";
   int nd = 1 + (int)r.below(4);
   for (int k = 0; k < nd; k++) s += "d" + std::to_string(k) + "\nDATA " + std::to_string((int64_t)r.range(-70000, 70000)) + "\n";
   s += "start\n";
